@@ -68,4 +68,4 @@ for _p in PROPS.values():
     _p.setdefault("dev", PINNED)
     _p.setdefault("mc", [])
     _p.setdefault("replay_cap_quick", 12000)
-    _p.setdefault("replay_cap_thorough", 400000)
+    _p.setdefault("replay_cap_thorough", 60000)
